@@ -61,12 +61,20 @@ def case_coq(t, detail):
     rects = coq_list([coq_list(["(mkR %s %s true true)" % (bound_coq(r["lo"][c], r["lok"][c]), bound_coq(r["hi"][c], r["hik"][c]))
                                 for c in range(len(r["lo"]))]) for r in (t["rects"] or [])])
     probes = coq_list(["(%s, %s)" % (nat(p[0]), nat(p[1])) for p in t["in"]["probes"]])
+    def rg(e, c):
+        return "(mkR %s %s %s %s)" % (bound_coq(e["lo"][c], e["lok"][c]), bound_coq(e["hi"][c], e["hik"][c]),
+                                      coq_bool(e["li"][c]), coq_bool(e["ri"][c]))
+    cbs = coq_list(["((%s, %s), %s, (%s, %s))" % (
+        nat(p["s"]), nat(p["e"]),
+        coq_list(["(%s, (%s, %s))" % (coq_list([rg(e, c) for c in range(len(e["lo"] or []))]), coq_bool(e["t"]), coq_bool(e["f"]))
+                  for e in p["table"]]),
+        z(p["final"][0]), z(p["final"][1])) for p in (t.get("cbprobes") or [])])
     scan_code = 0
     if t["scanerr"]:
         scan_code = 2 if t["scanerr"].startswith("panic") else 1
-    return ("(mkC %s (%s : list key) %s %s %s %s (%s : list (nat*nat)) (%s : list (list range)) %s %s %s (%s : list (nat*nat)) (%s : list Z) (%s : list (Z*Z)))" % (
+    return ("(mkC %s (%s : list key) %s %s %s %s (%s : list (nat*nat)) (%s : list (list range)) %s (%s : list ((nat*nat) * list (list range * (bool*bool)) * (Z*Z))) %s %s (%s : list (nat*nat)) (%s : list Z) (%s : list (Z*Z)))" % (
         coq_list([coq_bool(b) for b in t["isint"]]), keys, coq_list([nat(s) for s in t["in"]["sizes"]]),
-        cond_coq(t["in"]["cond"], [0]), nat(t["in"]["coarse"]), nat(t["minmarks"]), probes, rects, coq_bool(detail),
+        cond_coq(t["in"]["cond"], [0]), nat(t["in"]["coarse"]), nat(t["minmarks"]), probes, rects, coq_bool(detail), cbs,
         coq_bool(bool(t["conderr"])), nat(scan_code),
         coq_list(["(%s, %s)" % (nat(a), nat(b)) for a, b in t["ranges"]]),
         coq_list([z(x) for x in (t["maybe"] or [])]),
@@ -179,8 +187,8 @@ def classify(ck, cases, tag):
     def cur_mask(i):
         m = mask(i, base) & ~1          # the rewriting persists across the calls of one Scan: not modelled
         t = cases[i]
-        if has_null_mid_int(t) or -2 in (t["maybe"] or []):
-            m &= ~2                     # packed-value addressing / panics: not modelled
+        if has_null_mid_int(t) or -2 in (t["maybe"] or []) or any(p["final"][0] == -2 for p in (t.get("cbprobes") or [])):
+            m &= ~(2 | 16)              # packed-value addressing / panics: not modelled
         return m
     norm_cur_mis = [i for i in s2 if cur_mask(i) != 0]
     if not norm_rep_mis:
